@@ -52,6 +52,21 @@ CHECKS = {
             "Every isothermal/adiabatic modulus at every grid point of end-to-end runs on synthetic file triples (nine systems with invariant tensor fields and sufficient column subsets; free component sets with mixed shear keys; with/without lattice block) equals static(model function of the files) + phonon(TLC-derived) to 2e-6 (observed 2e-9); the provenance relation of the pipeline model is checked by perturbing one input class at a time.",
             "Trusted: QHA/numpy.polyfit/scipy interpolators as dependencies (P_total, C_V, static pressure taken from the running object, as the property names them inputs); data sets are in the class on which the interpolators are exact; strain fractions compared within the sampled volume range (1e-2).",
             "DESIGN.md section 4 C05"),
+    "C06": ("model_checking",
+            "TLC-enumerated rejection decision (spec/V2P.tla state machine over integer grids) replayed on synthetic EoS; every (quantity, temperature) isotherm of real runs validated as NDJSON records against the conversion relations by Trace_V2P.tla",
+            "Each pressure-base quantity (all moduli S and T, averages, velocities, pressures, volumes) of end-to-end runs is validated record by record by TLC: the value at each requested pressure lies between the volume-base values at the grid volumes whose pressures bracket it (curvature allowance), the pressure field converts to the requested pressures, V(T,P) brackets and decreases. The range check is replayed in the three classes below / between / above the temperature-dependent reach.",
+            "Trusted: QHA's P(T,V) (dependency); interpolation allowance 2 x neighbouring second differences; scaled integers (1e-4 GPa, 1e-7 relative).",
+            "DESIGN.md section 4 C06"),
+    "C07": ("model_checking",
+            "TLC decides that the 6x6 formulas are the contractions of the full fourth-rank tensors (identities of linear forms, spec/Averages.tla, C07.tla); exported forms replayed on stiffness fields injected into CijVolumeBaseInterface; every (T,V) sample validated by Trace_Averages.tla",
+            "Symbolic identities for all tensors at model level; implementation bound on positive-definite fields of all nine systems with random component subsets, masses and volumes: averages against the exported forms (1e-9), compliance inverse, Hill mean, bounds and rho v^2 relations in TLC on every sample.",
+            "Trusted: positive definiteness by numpy eigvalsh (logged per sample), constants of cv/consts.py.",
+            "DESIGN.md section 4 C07"),
+    "C15": ("model_checking",
+            "TLC model of the documented writer rule table (spec/Writer.tla: one rule per keyword, no file-name collisions, S/T selection) exporting the expectation table; replay of every keyword x base through ResultsWriter and write_output with files re-read by an independent parser",
+            "All 35 keywords/aliases on both bases on data sets with different grids and component sets: set of files created, row/column labels, values x unit factor, alias identity, availability, file-name and unit overrides.",
+            "Trusted: the frozen rule table is the documentation as of the pinned commit; printed precision 15 digits.",
+            "DESIGN.md section 4 C15"),
 }
 
 NOT_YET = {
